@@ -210,7 +210,7 @@ pub fn write_if_changed(path: &Path, text: &str) -> std::io::Result<bool> {
 }
 
 pub fn all() -> Vec<GenFile> {
-    vec![safelong::emit(), uri::emit(), token::emit_token(), token::emit_rid(), bodies::emit("conjure-object/src/plain.rs", "PlainSrc"), wrap::emit(), bodies::emit("conjure-serde/src/json/ser.rs", "JsonSerSrc"), bodies::emit("conjure-serde/src/json/de/client.rs", "JsonDeSrc"), bodies::emit("conjure-serde/src/smile/ser.rs", "SmileSerSrc"), bodies::emit("conjure-serde/src/smile/de/client.rs", "SmileDeClientSrc"), bodies::emit("conjure-serde/src/smile/de/server.rs", "SmileDeServerSrc"), bodies::emit("conjure-serde/src/json/de/server.rs", "JsonDeServerSrc"), bodies::emit("conjure-serde/src/de/unknown_fields_behavior.rs", "UnknownFieldsSrc"), anyde::emit(), bodies::emit("conjure-object/src/any/de.rs", "AnyDeSrc"), bodies::emit("conjure-object/src/any/ser.rs", "AnySerSrc"), status::emit(), bodies::emit("conjure-error/src/ser.rs", "ErrorSerSrc"), bodies::emit("conjure-error/src/error.rs", "ErrorSrc"), bodies::emit("conjure-error/src/lib.rs", "ErrorLibSrc"), bodies::emit("conjure-object/src/private.rs", "ObjPrivateSrc"), bodies::emit("conjure-object/src/double_key.rs", "DoubleKeySrc"), paramnames::emit(), errorsites::emit(), hashmapuses::emit(), keywords::emit(), bodies::emit("conjure-codegen/src/objects.rs", "CodegenObjectsSrc"), bodies::emit("conjure-codegen/src/unions.rs", "CodegenUnionsSrc"), bodies::emit("conjure-codegen/src/aliases.rs", "CodegenAliasesSrc"), bodies::emit("conjure-codegen/src/enums.rs", "CodegenEnumsSrc"), bodies::emit("conjure-codegen/src/context.rs", "CodegenContextSrc"), bodies::emit("conjure-codegen/src/clients.rs", "CodegenClientsSrc"), bodies::emit("conjure-codegen/src/servers.rs", "CodegenServersSrc"), bodies::emit("conjure-codegen/src/http_paths.rs", "CodegenHttpPathsSrc"), bodies::emit("conjure-rust/src/main.rs", "CliMainSrc"), bodies::emit("conjure-object/src/bearer_token/mod.rs", "BearerTokenSrc"), bodies::emit("conjure-macros/src/endpoints.rs", "MacroEndpointsSrc"), bodies::emit("conjure-http/src/private/server.rs", "PrivateServerSrc"), bodies::emit("conjure-http/src/server/mod.rs", "ServerModSrc"), bodies::emit("conjure-http/src/server/conjure.rs", "ServerConjureSrc")]
+    vec![safelong::emit(), uri::emit(), token::emit_token(), token::emit_rid(), bodies::emit("conjure-object/src/plain.rs", "PlainSrc"), wrap::emit(), bodies::emit("conjure-serde/src/json/ser.rs", "JsonSerSrc"), bodies::emit("conjure-serde/src/json/de/client.rs", "JsonDeSrc"), bodies::emit("conjure-serde/src/smile/ser.rs", "SmileSerSrc"), bodies::emit("conjure-serde/src/smile/de/client.rs", "SmileDeClientSrc"), bodies::emit("conjure-serde/src/smile/de/server.rs", "SmileDeServerSrc"), bodies::emit("conjure-serde/src/json/de/server.rs", "JsonDeServerSrc"), bodies::emit("conjure-serde/src/de/unknown_fields_behavior.rs", "UnknownFieldsSrc"), anyde::emit(), bodies::emit("conjure-object/src/any/de.rs", "AnyDeSrc"), bodies::emit("conjure-object/src/any/ser.rs", "AnySerSrc"), status::emit(), bodies::emit("conjure-error/src/ser.rs", "ErrorSerSrc"), bodies::emit("conjure-error/src/error.rs", "ErrorSrc"), bodies::emit("conjure-error/src/lib.rs", "ErrorLibSrc"), bodies::emit("conjure-object/src/private.rs", "ObjPrivateSrc"), bodies::emit("conjure-object/src/double_key.rs", "DoubleKeySrc"), paramnames::emit(), errorsites::emit(), hashmapuses::emit(), keywords::emit(), bodies::emit("conjure-codegen/src/objects.rs", "CodegenObjectsSrc"), bodies::emit("conjure-codegen/src/unions.rs", "CodegenUnionsSrc"), bodies::emit("conjure-codegen/src/aliases.rs", "CodegenAliasesSrc"), bodies::emit("conjure-codegen/src/enums.rs", "CodegenEnumsSrc"), bodies::emit("conjure-codegen/src/context.rs", "CodegenContextSrc"), bodies::emit("conjure-codegen/src/clients.rs", "CodegenClientsSrc"), bodies::emit("conjure-codegen/src/servers.rs", "CodegenServersSrc"), bodies::emit("conjure-codegen/src/http_paths.rs", "CodegenHttpPathsSrc"), bodies::emit("conjure-codegen/src/lib.rs", "CodegenLibSrc"), bodies::emit("conjure-rust/src/main.rs", "CliMainSrc"), bodies::emit("conjure-object/src/bearer_token/mod.rs", "BearerTokenSrc"), bodies::emit("conjure-macros/src/endpoints.rs", "MacroEndpointsSrc"), bodies::emit("conjure-macros/src/client.rs", "MacroClientSrc"), bodies::emit("conjure-macros/src/path.rs", "MacroPathSrc"), bodies::emit("conjure-http/src/private/server.rs", "PrivateServerSrc"), bodies::emit("conjure-http/src/server/mod.rs", "ServerModSrc"), bodies::emit("conjure-http/src/server/conjure.rs", "ServerConjureSrc")]
 }
 
 pub fn run(out_dir: &Path) -> Result<(), String> {
